@@ -293,7 +293,8 @@ def run_shard(spec):
 TEXT = ("Held on every history observed: the index-support invariant is evaluated after each of ~15 000 (quick) / "
         "~1.3 million (thorough) operations, and at the end of every history all queries, verify(), refresh/clone "
         "and 3-8 follow-up assignments are compared with a fresh manager that holds only the surviving "
-        "definitions. Exploration over sampled histories.")
+        "definitions. Exploration over sampled histories."
+        ' Plus long churn histories (1100-1600 operations on one manager, ~600 removals, no refresh) for state that accumulates over many removals.')
 NOTE = ("Trusted: derivation of the index supports from public task attributes; the twin construction (copy of the "
         "current contents + registration of the surviving definitions in tasks order); the generator's record of "
         "which definitions survive.")
